@@ -39,6 +39,9 @@ def main(tier):
         i, (n, mode, cnt, sym) = a
         f = os.path.join(wd, "o%d.ndjson" % i)
         rc, err = order.generate(f, n, mode, cnt, ck.seed * 131 + i, sym)
+        if rc == 4:
+            last = open(f).readlines()[-1].strip() if os.path.exists(f) else ""
+            return a, f, None, "get_perm_c / sp_colorder did not return within 20 s on %s" % last[:600]
         if rc != 0:
             return a, f, None, "driver exit %s: %s" % (rc, err)
         r = tlc.order_trace(wd, "o%d" % i, f, check_bound=False, timeout=3000)
